@@ -465,12 +465,16 @@ def globals : List GlobalSite := [
   ⟨"_import.py", "_forget_relative_module", "sys_modules_write", "sys.modules.pop(mod_name, None)"⟩,
   ⟨"_import.py", "_forget_relative_module", "sys_modules_delete", "del sys.modules[k]"⟩,
   ⟨"_import.py", "_forget_relative_module", "global_object_write", "_relative_modules.discard(mod_name)"⟩,
-  ⟨"_import.py", "jaqal_import", "sys_modules_delete", "del sys.modules[mod_name]"⟩,
-  ⟨"_import.py", "jaqal_import", "sys_modules_delete", "del sys.modules[k]"⟩,
-  ⟨"_import.py", "jaqal_import", "process_state_call", "importlib.reload(module)"⟩,
-  ⟨"_import.py", "jaqal_import", "process_state_call", "importlib.import_module(mod_name)"⟩,
-  ⟨"_import.py", "jaqal_import", "process_state_call", "importlib.reload(ret)"⟩,
-  ⟨"_import.py", "jaqal_import", "process_state_call", "importlib.import_module(submod_name)"⟩,
+  -- modules of the same name that somebody else imported are set aside for the duration of a relative import
+  -- and put back in a `finally`, so that the import neither depends on them nor damages them
+  ⟨"_import.py", "jaqal_import", "sys_modules_write", "sys.modules.pop(k)"⟩,
+  ⟨"_import.py", "jaqal_import", "sys_modules_write", "sys.modules.update(foreign)"⟩,
+  ⟨"_import.py", "_jaqal_import", "sys_modules_delete", "del sys.modules[mod_name]"⟩,
+  ⟨"_import.py", "_jaqal_import", "sys_modules_delete", "del sys.modules[k]"⟩,
+  ⟨"_import.py", "_jaqal_import", "process_state_call", "importlib.reload(module)"⟩,
+  ⟨"_import.py", "_jaqal_import", "process_state_call", "importlib.import_module(mod_name)"⟩,
+  ⟨"_import.py", "_jaqal_import", "process_state_call", "importlib.reload(ret)"⟩,
+  ⟨"_import.py", "_jaqal_import", "process_state_call", "importlib.import_module(submod_name)"⟩,
   -- constant flag, only read by BranchStatement.__init__; users may set it, the library never does
   ⟨"core/branch.py", "<module>", "module_flag", "USE_EXPERIMENTAL_BRANCH = False"⟩,
   -- constant list, only read (membership tests)
